@@ -22,6 +22,7 @@ ASSUMPTIONS = [
 ]
 MSS = 512
 RTTS = [0.5, 1, 3]
+RTTS0 = [0, 0.5, 3]
 
 
 def plan(tier, seed):
@@ -33,6 +34,12 @@ def plan(tier, seed):
     cfgs.append(dict(cc="cubic", depth=d))
     cfgs.append(dict(cc="cubic", depth=d, pre=["dup", "dup", "dup", ("new", 1, 1), ("new", 1, 1)]))
     cfgs.append(dict(cc="reno", cwnd=4096, ssthresh=1024, depth=d, pre=["dup", "dup", "dup"]))
+    # RTT samples of exactly 0 (zero-delay paths)
+    cfgs.append(dict(cc="cubic", depth=d - 1, pre=["dup", "dup", "dup", ("new", 1, 0), ("new", 1, 0)], rtt0=1))
+    cfgs.append(dict(cc="reno", cwnd=1024, ssthresh=1024, depth=d - 1, rtt0=1))
+    # an application that hands over one segment per second: the sender sleeps between segments while the window may shrink
+    cfgs.append(dict(cc="reno", cwnd=2048, ssthresh=1024, depth=d, app=1))
+    cfgs.append(dict(cc="cubic", depth=d, app=1))
     return {"cfgs": cfgs, "budget": None, "bound": "histories of <=%d events (after fixed prefixes for the CUBIC/fast-recovery start states)" % d}
 
 
@@ -131,7 +138,10 @@ class Ref:
 def execute(ch, cfg):
     res = Result()
     env = Environment()
-    flow = Flow(flow_id=0, src="s", dst="d", start_time=0, finish_time=10 ** 9, size=400 * MSS)
+    if cfg.get("app"):
+        flow = Flow(flow_id=0, src="s", dst="d", start_time=0, finish_time=10 ** 9, size=None, arrival_dist=lambda: 1.0, size_dist=lambda: MSS)
+    else:
+        flow = Flow(flow_id=0, src="s", dst="d", start_time=0, finish_time=10 ** 9, size=400 * MSS)
     cc = TCPCubic() if cfg["cc"] == "cubic" else TCPReno(mss=MSS, cwnd=cfg["cwnd"], ssthresh=cfg["ssthresh"])
     ref = Ref(cfg)
     sent = []          # (time, packet_id, size, is_retransmission)
@@ -153,9 +163,18 @@ def execute(ch, cfg):
             env.step()
             n += 1
 
-    def check_new_segments(since, where):
-        """segments emitted since index `since`: new ones must be MSS-sized, consecutive and inside the window"""
-        for (t, pid, size, retx) in sent[since:]:
+    def check_new_segments(since, where, before=None):
+        """segments emitted and not yet accounted for (optionally only those emitted before instant `before`): new ones
+        must be MSS-sized, consecutive and inside the window in force when they were sent"""
+        since = state.get("checked", 0)
+        upto = len(sent)
+        if before is not None:
+            # everything emitted before the retransmission that marks the timer's firing (also within that instant)
+            upto = since
+            while upto < len(sent) and not (sent[upto][3] and sent[upto][0] >= before):
+                upto += 1
+        state["checked"] = upto
+        for (t, pid, size, retx) in sent[since:upto]:
             if retx:
                 continue
             res.ev("C17.guard")
@@ -234,6 +253,9 @@ def execute(ch, cfg):
             expire_until(target)
             if env.now < target:
                 env.run(until=target)
+                quiesce()
+            check_new_segments(0, "clock")
+            compare("clock", "C17.guard")
         elif ev == "expiry":
             expire_until(INF)
 
@@ -256,6 +278,7 @@ def execute(ch, cfg):
             if sorted(s[1] for s in retx) != due or any(s[0] != when for s in retx):
                 bad.append(("C17.timeout", tag + ":timer-expiry-did-not-retransmit-the-segment", "history %r: at t=%r retransmitted %r, timers due %r" % (hist, when, retx, due)))
                 return
+            check_new_segments(n0, "before timer expiry", before=when)     # data handed over by the application meanwhile
             for s in due:
                 ref.timeout(s, when)
             check_new_segments(n0, "timer expiry")
@@ -281,7 +304,7 @@ def execute(ch, cfg):
         n = 0
         while n < cfg["depth"] and not bad:
             outstanding = (ref.next_seq - ref.last_ack) // MSS
-            menu = [("new", k, r) for k in (1, 2, 3) if k <= outstanding for r in RTTS] + ["dup", "clock"] + (["expiry"] if ref.timers else [])
+            menu = [("new", k, r) for k in (1, 2, 3) if k <= outstanding for r in (RTTS0 if cfg.get("rtt0") else RTTS)] + ["dup", "clock"] + (["expiry"] if ref.timers else [])
             c = ch.choose(len(menu) + 1, lambda c: "event %s" % ("end" if c == 0 else (menu[c - 1],)), free=True)
             if c == 0:
                 break
